@@ -23,7 +23,8 @@
    correspondence compares the PARSED file with the model).
 
    Not modelled: output / status-report / virtual-environments / application-dependencies / interface sections
-   (the generators leave them empty), `replica` references inside variable values, dotted variable names,
+   (the generators leave them empty), `replica` references inside the variables a COMPONENT variable refers to (a
+   `replica` reference in a global / stage variable value is covered: it is an unknown variable), dotted variable names,
    array-index expansion; DoWhile documents (`$import` components are carried through verbatim). *)
 From Coq Require Import String Ascii List Bool ZArith Arith Lia.
 Import ListNotations.
@@ -122,16 +123,24 @@ Definition keep_override (p : string) (c : jv) (m : alist) : alist :=
 
 Definition is_import (c : jv) : bool := match get_path ["$import"] c with Some _ => true | None => false end.
 
-Definition store_comp_raw (d : doc) (p : string) (c : jv) : option jv :=
+(* instance() (repaired, finding F7d) derives workflowAttributes.isRepeat again from the LAYERED repeatInterval of the
+   folded component - the same function of the component that FlowIRConcrete.__init__ applies to every component of a
+   document it is built from ([comp_pre]) - before it stores it.  [store_comp_raw_pinned] is what the pinned code did:
+   the stored isRepeat was the one derived from the component's OWN repeatInterval when the package was loaded. *)
+Definition store_comp_with (rederive : jv -> jv) (d : doc) (p : string) (c : jv) : option jv :=
   if is_import c then Some c
   else match comp_stage_key c with
        | None => None
        | Some sk =>
            match fold_override (Some (JDict [])) (store_layers d p sk c) with
-           | Some (JDict m) => Some (JDict (keep_override p c (set_key "variables" (JDict (comp_own_vars p c)) m)))
+           | Some (JDict m) =>
+               Some (JDict (keep_override p c (set_key "variables" (JDict (comp_own_vars p c)) (jdict_of (rederive (JDict m))))))
            | _ => None
            end
        end.
+
+Definition store_comp_raw : doc -> string -> jv -> option jv := store_comp_with comp_pre.
+Definition store_comp_raw_pinned : doc -> string -> jv -> option jv := store_comp_with (fun f => f).
 
 Fixpoint all_some {A} (l : list (option A)) : option (list A) :=
   match l with
@@ -248,13 +257,45 @@ Definition finish_comp (g2 : alist) (stage_vars : alist) (c : jv) : res jv :=
 Definition finish_env (g2 : alist) (e : jv) : res jv :=
   rbind (fill_tol (jdict_of e) e) (fun e1 => fill_tol (update g2 (jdict_of e)) e1).
 
-Definition finish (f : fdoc) : res fdoc :=
+(* the pinned instance(is_primitive=True) interpolated the STAGE variables with is_primitive=True: a reference to `replica`
+   that cannot be resolved stays, every other reference of the value is resolved - the stored value was PARTIALLY
+   resolved (finding F7e; occurrences of %(replica)s in the value itself are modelled, not those inside the variables
+   it refers to).  The repaired instance() interpolates them like the running experiment does (is_primitive=False):
+   [interp_var] - completely, or not at all. *)
+Fixpoint subst_prim (rv : string -> res string) (ts : list tok) : res string :=
+  match ts with
+  | [] => Ok EmptyString
+  | TChr c :: r => rmap (String c) (subst_prim rv r)
+  | TRef n :: r =>
+      if dotted n then rmap (fun t => "%(" ++ n ++ ")s" ++ t) (subst_prim rv r)
+      else match rv n with
+           | Ok v => rmap (fun t => v ++ t) (subst_prim rv r)
+           | Err (EUnknown m) => if String.eqb n "replica" then rmap (fun t => "%(" ++ n ++ ")s" ++ t) (subst_prim rv r)
+                                 else Err (EUnknown m)
+           | Err e => Err e
+           end
+  end.
+
+Definition interp_var_pinned (ctx : alist) (v : jv) : res jv :=
+  match v with
+  | JStr s => match finish_str (subst_prim (resolve_var (fuel_of ctx) ctx) (scan 0 s)) with
+              | Ok t => Ok (JStr t)
+              | Err (EUnknown _) => Ok v
+              | Err e => Err e
+              end
+  | JNull | JList _ | JDict _ => Err (EInvalidVar "")
+  | _ => Ok v
+  end.
+
+Definition finish_with (stage_iv : alist -> jv -> res jv) (f : fdoc) : res fdoc :=
+  let interp_vars_st (ctx m : alist) : res alist :=
+    map_res (fun kv => rmap (fun v => (fst kv, v)) (stage_iv ctx (snd kv))) m in
   let d := f_doc f in
   let g0 := vars_global d DEF in
   let st0 := jdict_of (get_or (JDict []) [DEF; "stages"] (d_variables d)) in
   rbind (interp_vars g0 g0) (fun g1 =>
   rbind (map_res (fun kv => rmap (fun m => (fst kv, JDict m))
-                                 (interp_vars (update g1 (jdict_of (snd kv))) (jdict_of (snd kv)))) st0) (fun st1 =>
+                                 (interp_vars_st (update g1 (jdict_of (snd kv))) (jdict_of (snd kv)))) st0) (fun st1 =>
   rbind (fill_alist g1 g1) (fun g2 =>
   rbind (map_res (fun kv => rmap (fun e => (fst kv, e)) (finish_env g2 (snd kv))) (f_envs f)) (fun envs =>
   rbind (map_res (finish_comp g2 st1) (d_components d)) (fun cs =>
@@ -266,10 +307,19 @@ Definition finish (f : fdoc) : res fdoc :=
   Ok {| f_doc := {| d_blueprint := mk_sections bg bss; d_variables := mk_sections (JDict g2) st1; d_components := cs |};
         f_envs := envs |}))))))).
 
+Definition finish : fdoc -> res fdoc := finish_with interp_var.
+Definition finish_pinned : fdoc -> res fdoc := finish_with interp_var_pinned.
+
 Definition flatten (d : doc) (envs u : jv) (p : string) : res fdoc :=
   match flatten_raw d envs u p with
   | None => Err EShape
   | Some f => finish f
+  end.
+
+Definition flatten_pinned (d : doc) (envs u : jv) (p : string) : res fdoc :=
+  match flatten_raw d envs u p with
+  | None => Err EShape
+  | Some f => finish_pinned f
   end.
 
 (* ------------------------------------------------------------------ correspondence checker *)
